@@ -84,6 +84,7 @@ pub fn run(out: &mut Out, inp: &str) {
                         "flush" => WOp::Flush, "into_inner" => WOp::IntoInner,
                         "write_raw" => WOp::WriteRaw { id: idv(&w["id"]), data: bytes(&w["val"]) },
                         "start_unknown_dep" => WOp::StartUnknownDeprecated { tag: DynTag { id: idv(&w["id"]), v: DynVal::M(Master::Start) } },
+                        _ if w["dep"].as_bool().unwrap_or(false) => WOp::StartUnknownDeprecated { tag: tag_of(w) },
                         _ => WOp::Tag { tag: tag_of(w), width: w["width"].as_u64().unwrap_or(0) as usize, unknown: w["unknown"].as_bool().unwrap_or(false) },
                     });
                     j += 1;
